@@ -118,4 +118,22 @@ def decCompact (bits : Nat) (bs : List Nat) : DecResult :=
           | none => .error .opaque
           | some x => if (2 ^ (8 * n) - 1) / 2 ^ ((69 - n) * 8) < x then .ok (x, 1 + n) else .error .opaque
 
+/-- what a compact item DENOTES under the format, read leniently (mode bits, then the mode's bytes; none of the
+    canonicity conditions): value and item length. Used by the C17 predicate to judge accepted inputs. -/
+def denoteCompact (bs : List Nat) : Option (Nat × Nat) :=
+  match bs with
+  | [] => none
+  | p :: rest =>
+    if p % 4 = 0 then some (p / 4, 1)
+    else if p % 4 = 1 then (if rest.length < 1 then none else some (leVal (bs.take 2) / 4, 2))
+    else if p % 4 = 2 then (if rest.length < 3 then none else some (leVal (bs.take 4) / 4, 4))
+    else if rest.length < p / 4 + 4 then none else some (leVal (rest.take (p / 4 + 4)), 1 + (p / 4 + 4))
+
+/-- what a SCALE byte vector denotes as a little-endian number, the length prefix read leniently. -/
+def denoteFixed (bs : List Nat) : Option (Nat × Nat) :=
+  match denoteCompact bs with
+  | none => none
+  | some (len, hl) =>
+    if (bs.drop hl).length < len then none else some (leVal ((bs.drop hl).take len), hl + len)
+
 end Ruint.Codec.Scale
